@@ -2,6 +2,7 @@
 """mut.py <check id> <file relative to repo> <old text> <new text> : run a check against a mutated copy of /repo
 (VERIF_REPO), never touching /repo. Prints the check's last lines."""
 import os, shutil, subprocess, sys
+ROOT = os.path.dirname(os.path.dirname(os.path.dirname(os.path.abspath(__file__))))
 pid, rel, old, new = sys.argv[1:5]
 tier = sys.argv[5] if len(sys.argv) > 5 else "quick"
 d = "/tmp/repo-mut-%s-%d" % (pid, os.getpid())
@@ -13,7 +14,7 @@ try:
         print("PATTERN NOT FOUND"); sys.exit(2)
     open(p, "w").write(s.replace(old, new, 1))
     env = dict(os.environ, VERIF_REPO=d)
-    r = subprocess.run(["/verif/check", pid, "--tier", tier], env=env, capture_output=True, text=True)
+    r = subprocess.run([os.path.join(ROOT, "check"), pid, "--tier", tier], env=env, capture_output=True, text=True)
     print("\n".join((r.stdout + r.stderr).strip().split("\n")[-4:])); print("exit", r.returncode)
 finally:
     shutil.rmtree(d, ignore_errors=True)
